@@ -517,3 +517,19 @@ Section Sequences.
     rewrite <- E1. apply IH; [lia | rewrite C1; exact N | exact Hp2 | exact H].
   Qed.
 End Sequences.
+
+(* ------------------------------------------------------------------------------------------
+   Uncounted top-level requests made by a holder on another object (colvarbias_abf::init: variables->enable(hide_Jacobian),
+   enable(grid); histogram / metadynamics: enable(grid); colvar::parse_analysis: cv2->enable(fdiff_velocity)) are plain
+   `MPrim (OpEnable v g false true false)` operations of the lifecycle model: nothing records that the holder needs them.
+   Consequence, for EVERY sequence of deletions (biases, variables with their biases, reset): a feature that is not dynamic
+   keeps its state in every object that existed -- whoever asked for it, however many holders there were. *)
+Theorem deletions_keep_uncounted_requests (T : tables) n (ps : list mop) m m' o g :
+  forallb deletion_op ps = true -> m_run T n ps m = Some m' ->
+  (o < length (m_objs m))%nat -> is_dynamic (feat T (cls_of (m_objs m) o) g) = false ->
+  is_enabled (m_objs m') o g = is_enabled (m_objs m) o g.
+Proof.
+  intros Hd H L N. apply (non_dynamic_changes_only_on_request T o g n ps m m' L N); [|exact H].
+  clear H. induction ps as [|p ps IH]; [reflexivity|]. cbn [forallb] in *. apply andb_true_iff in Hd. destruct Hd as [H1 H2].
+  rewrite (IH H2), andb_true_r. destruct p; cbn in *; try reflexivity; discriminate.
+Qed.
